@@ -123,6 +123,13 @@ class C03(Prop):
             nn = rng.randint(1, 5)
             nodes[0]["opts"] = {"cluster": {"version": rng.randint(1, 99), "nodes": [
                 ["node%d.cache.example" % i, "10.1.0.%d" % (i + 1), 11211] for i in range(nn)]}}
+        if m == "raw_command":
+            # an end token that also occurs inside the reply ends the read early by definition; what
+            # happens to the rest then depends on buffering, which is not what C03 is about
+            for st in steps:
+                if st["t"] == "direct":
+                    v = codec.dec(st["value"])
+                    st["value"] = E(v.replace(b"END", b"EnD").replace(b"\n\r\n", b"\n\r_"))
         steps.append({"t": "call", "m": m, "a": a, "k": k, "tag": "probe"})
         steps.append({"t": "call", "m": "get", "a": [E(b"k2")], "k": {}, "tag": "follow"})
         return {"property": self.id, "world": w, "steps": steps}
